@@ -55,6 +55,24 @@ theorem tetris_step_last_iff_rules (cfg : Cfg) (s : State) (hc : Consistent cfg 
       (¬ legal cfg s rot x ∨ (step cfg s (rot : Int) (x : Int) d).1.actionMask.any (fun r => r.any id) = false ∨
         cfg.timeLimit ≤ s.stepCount + 1) := Tetris.step_last_iff_rules cfg s hc hr hx d
 
+/-- the same with the middle disjunct at the level of the RULES (audit r5 #4; `tetris_step_last_iff_rules` reads the CACHED
+`action_mask` of the successor): on a board of at least 4 × 4, in a consistent state, for every action of the action space and every
+valid draw of the next piece, the timestep is LAST exactly when the rules forbid the action, or NO placement (rotation, column) of the
+next piece is legal on the successor board, or the time is up -/
+theorem tetris_step_last_iff_rules' (cfg : Cfg) (s : State) (hc : Consistent cfg s) (hR : 4 ≤ cfg.numRows)
+    (hC : 4 ≤ cfg.numCols) {rot x : Nat} (hr : rot < 4) (hx : x < cfg.numCols) (d : Nat) (hd : validDraw d) :
+    (step cfg s (rot : Int) (x : Int) d).2.stepType = .last ↔
+      (¬ legal cfg s rot x ∨
+       (∀ rot' x', rot' < 4 → x' < cfg.numCols → ¬ legal cfg (step cfg s (rot : Int) (x : Int) d).1 rot' x') ∨
+        cfg.timeLimit ≤ s.stepCount + 1) := Tetris.step_last_iff_rules' cfg s hc hR hC hr hx d hd
+
+/-- … and after every LEGAL drop — LAST or not — the mask cached in the successor IS the legality table of the successor -/
+theorem tetris_step_mask_is_legal (cfg : Cfg) (s : State) (hc : Consistent cfg s) (hR : 4 ≤ cfg.numRows)
+    (hC : 4 ≤ cfg.numCols) (rot x d : Nat) (hr : rot < 4) (hx : x < cfg.numCols) (hd : validDraw d)
+    (hl : legal cfg s rot x) :
+    (step cfg s (rot : Int) (x : Int) d).1.actionMask = legalMask cfg (step cfg s (rot : Int) (x : Int) d).1 :=
+  Tetris.step_mask_legalMask cfg s hc hR hC rot x d hr hx hd hl
+
 /-- … hence, when a move is left afterwards and the time is not up, the environment treats the action as invalid (ends the
 episode) exactly when it is illegal: legal ↔ the step did not treat it as invalid -/
 theorem tetris_step_reaction (cfg : Cfg) (s : State) (hc : Consistent cfg s) {rot x : Nat} (hr : rot < 4)
@@ -353,17 +371,29 @@ theorem tetris_step_obs_in_bounds (cfg : Cfg) (s : State) (rot x : Int) (d : Nat
     ObsInBounds (obsBounds cfg) (obsLeaves (step cfg s rot x d).2.obs) :=
   Tetris.step_obs_in_bounds cfg s rot x d hlim
 
+/-! NOTE on what the membership theorems of this section do and do not cover (audits r4 #6, r5 #6, r6 #8): the dtype tag of every leaf
+is written by `toNValue` (by construction) — a wrong dtype in the real code cannot falsify `….valid (toNValue …) = true`; dtypes and
+field order of the real observations are compared by the `tetris.state` op (`nvalue`: field order, shape, dtype, data; harness/spec_wave3.py,
+wave3_routing.py) and `jax.eval_shape` in the sweeps.  Shapes are READ OFF the value by `toNValue` (widths off the first row): see
+`…_obs_valid_only`. -/
+
 /-! #### (wave 3) membership in the DECLARED specs: structure, shapes, dtypes and bounds -/
 open Sp PzS PkS
 
 /-- the model's `obsSpec` / `actionSpec` / reward and discount specs ARE the specs generated from the real spec objects
-(Gen/Specs.lean) for the catalogue configuration `Tetris(num_rows=6, num_cols=5, time_limit=9)` -/
+(Gen/Specs.lean) for the catalogue configuration `Tetris(num_rows=6, num_cols=5, time_limit=9)`
+SPEC-ONLY second configuration `Tetris(num_rows=7, num_cols=5, time_limit=11)` -/
 theorem tetris_obsSpec_generated :
     prefixed "observation_spec." (obsSpec ⟨6, 5, 9⟩) = declared "tetris-6x5" "observation_spec." ∧
     [("action_spec", actionSpec ⟨6, 5, 9⟩)] = declared "tetris-6x5" "action_spec" ∧
     [("reward_spec", rewardSpec)] = declared "tetris-6x5" "reward_spec" ∧
-    [("discount_spec", discountSpec)] = declared "tetris-6x5" "discount_spec" := by
-  refine ⟨by decide, by decide, by decide, by decide⟩
+    [("discount_spec", discountSpec)] = declared "tetris-6x5" "discount_spec" ∧
+    prefixed "observation_spec." (obsSpec ⟨7, 5, 11⟩) = declared "spec-only-tetris-7x5" "observation_spec." ∧
+    [("action_spec", actionSpec ⟨7, 5, 11⟩)] = declared "spec-only-tetris-7x5" "action_spec" ∧
+    [("reward_spec", rewardSpec)] = declared "spec-only-tetris-7x5" "reward_spec" ∧
+    [("discount_spec", discountSpec)] = declared "spec-only-tetris-7x5" "discount_spec" := by
+  refine ⟨by decide +kernel, by decide +kernel, by decide +kernel, by decide +kernel, by decide +kernel, by decide +kernel,
+    by decide +kernel, by decide +kernel⟩
 
 /-- the `reset` observation (ALL sizes with at least one row and three columns — the constructor demands 4 × 4 —, every valid
 first piece) is accepted by `observation_spec.validate`: fields `grid`, `tetromino`, `action_mask`, `step_count`; shapes
@@ -396,7 +426,10 @@ theorem tetris_rollout_obs_valid (cfg : Cfg) (hR : 0 < cfg.numRows) (hC : 3 ≤ 
     (obsSpec cfg).valid (toNValue e.2.obs) = true := Tetris.rollout_obs_valid cfg hR hC d0 as has j hj e he
 
 /-- what membership means (so the theorems above are not hollow): `validate` accepts an observation ONLY IF grid, piece and
-mask have the declared shapes, all cells are 0/1 and the counter is at most the time limit -/
+mask have the declared shapes, all cells are 0/1 and the counter is at most the time limit  CAVEAT (audits r4 #7, r5 #5, r6 #5): for every field that is a nested list, `toNValue` reads the widths off the FIRST row of the
+nested list, so the shape conjuncts here mean "row count, length of the first row, total number of cells" — a ragged value with the right total can be a
+member, and nothing is concluded about the later rows.  Rectangularity is part of the invariant (`SpecInv` / `Shaped` / `Rect…`) under which the
+forward theorems (`…_reset_obs_valid`, `…_step_obs_valid`, `…_along`) are proved, i.e. it holds of every EMITTED observation. -/
 theorem tetris_obs_valid_only (cfg : Cfg) (o : Obs) (h : (obsSpec cfg).valid (toNValue o) = true) :
     shape2 o.grid = [cfg.numRows, cfg.numCols] ∧ (∀ v ∈ o.grid.flatten, v ≤ 1) ∧
     shape2 o.tetromino = [4, 4] ∧ (∀ v ∈ o.tetromino.flatten, v ≤ 1) ∧
